@@ -135,25 +135,34 @@ theorem connect_sound {c : Ctx} {s : Store} {chain rest : List Block} {b : Block
   rw [readyWallets_congr hstat] at hw
   rw [hbal w hw, e'.L]
 
-/-- the same with the address records (first-use heights) -/
-theorem connect_sound_full {c : Ctx} {s : Store} {chain rest : List Block} {b : Block}
-    (hI : InvFull c s chain) (hnode : c.node.chain = chain ++ b :: rest) (hvalid : ChainValid c.own c.node.chain)
+/-- the same with the address records (first-use heights), relative to the issued-address table `a0` -/
+theorem connect_sound_full {c : Ctx} {s : Store} {a0 : Wid × Bool × Addr → Option Nat} {chain rest : List Block} {b : Block}
+    (hI : InvFull c s a0 chain) (hnode : c.node.chain = chain ++ b :: rest) (hvalid : ChainValid c.own c.node.chain)
     (hheight : b.height = chain.length)
     (hAR : AllReady c.own (readyWallets s c.wallets)) (hne : (readyWallets s c.wallets).isEmpty = false) :
-    ∃ s' conf, filterBlock c s (readyWallets s c.wallets) b = .ok (s', conf) ∧ InvFull c s' (chain ++ [b]) ∧
+    ∃ s' conf, filterBlock c s (readyWallets s c.wallets) b = .ok (s', conf) ∧ InvFull c s' a0 (chain ++ [b]) ∧
       s'.status = s.status := by
   have hvc : ChainValid c.own chain :=
     chainValid_prefix (a := chain) (b := b :: rest) (by rw [← hnode]; exact hvalid)
   obtain ⟨hL0, hG0⟩ := loc_bookOf (p := c.p) hvc
-  have hA : Agree s (bookOf c.p c.own chain) :=
-    ⟨hI.agree.unspent, hI.agree.credits, hI.agree.debits, hI.agree.game, hI.agree.txrecs, hI.agree.blocks, hI.addrs⟩
+  have e := (booksFrom_eqM c.p c.own a0 chain).symm
+  have hA : Agree s (booksFrom c.p c.own a0 chain) :=
+    ⟨(hI.agree.congr e).unspent, (hI.agree.congr e).credits, (hI.agree.congr e).debits, (hI.agree.congr e).game,
+     (hI.agree.congr e).txrecs, (hI.agree.congr e).blocks, hI.addrs⟩
   obtain ⟨s', conf, h1, hR, hbal, hsync, hst, hstat⟩ :=
-    connect_core hA hI.bal (glob_bookOf (p := c.p) hvc) hL0 hG0 hI.sync hI.syncedTo hnode hvalid hheight hAR hne
-  rw [← bookOf_snoc] at hR hbal
-  refine ⟨s', conf, h1, ⟨⟨hR.toM, ?_, hsync, hst⟩, hR.addrs⟩, hstat⟩
+    connect_core hA (by intro w hw; rw [hI.bal w hw, e.L]) ((glob_bookOf (p := c.p) hvc).congrM e) (hL0.congrM e)
+      (hG0.congrM e) hI.sync hI.syncedTo hnode hvalid hheight hAR hne
+  have hsn : (occsOfBlock b).foldl (applyOcc c.p c.own) (booksFrom c.p c.own a0 chain) =
+      booksFrom c.p c.own a0 (chain ++ [b]) := by
+    unfold booksFrom
+    rw [occs_append, List.foldl_append]
+    simp [occs]
+  rw [hsn] at hR hbal
+  have e' := booksFrom_eqM c.p c.own a0 (chain ++ [b])
+  refine ⟨s', conf, h1, ⟨⟨hR.toM.congr e', ?_, hsync, hst⟩, hR.addrs⟩, hstat⟩
   intro w hw
   rw [readyWallets_congr hstat] at hw
-  exact hbal w hw
+  rw [hbal w hw, e'.L]
 
 /-- block heights are positions in the chain -/
 def HeightsOK (chain : List Block) : Prop := ∀ (i : Nat) (b : Block), chain[i]? = some b → b.height = i
